@@ -45,7 +45,7 @@ PROPS["C08"] = {
     "native_validate": [{"id": "N-1", "args": ["triecheck"],
                          "desc": "the trie arrays the SuRF probe harnesses (A-5*) start from equal SurfTrie::build_from_sorted for every pair of 3-byte keys over the alphabet {0,1,2,127,128,255} (23436 pairs), native dev build"}],
     "level": "model_checking",
-    "explanation": "Bounded model checking (Kani/CBMC) of the pruning kernels that are executable symbolically: the order-preserving key encodings shared by the SuRF builder and the range probe (same-kind and cross-kind literals), the per-zone time index (builder invariant + query side from any state satisfying it) and the calendar's bucket arithmetic. Soundness is asserted as: whenever a stored value satisfies the probe, the structure's comparison keeps the zone.",
+    "explanation": "Bounded model checking (Kani/CBMC) of the pruning kernels that are executable symbolically: the order-preserving key encodings shared by the SuRF builder and the range probe (same-kind and cross-kind literals), the per-zone time index (builder invariant + query side from any state satisfying it) and the calendar's bucket arithmetic. Soundness is asserted as: whenever a stored value satisfies the probe, the structure's comparison keeps the zone. Engine B B-2: TemporalCalendarIndex::add_zone_range inserts the zone into every hour and day bucket of its range (per loop iteration: admitted by t <= end implies inserted; key and step checked).",
     "outside": [
         "the trie builder under the solver (SurfTrie::build_from_sorted uses a HashMap): the probe harnesses start from hand-written trie arrays that a native run compares with the real builder; keys longer than 3 bytes, more than two keys per zone, the 16-lane SIMD child scan (needs >= 16 children)",
         "enum bitmaps, the calendar index's bitmap operations (HashMap<u32,RoaringBitmap>; its bucket-id function is decided by Engine B, B-1), the min_ts >= 0 insertion guard in the async temporal builder, XOR / binary-fuse filters, context index, index catalog, the >90% fallback rule: HashMap / roaring / xorf / I-O bound",
@@ -71,7 +71,7 @@ PROPS["C10"] = {
     "kani": "c10",
     "mir": "c10",
     "level": "model_checking",
-    "explanation": "Bounded model checking (Kani/CBMC) of the comparison every sorter and k-way merger delegates to (ScalarValue::compare) on each numeric / time / bool sort-key type: equals the typed order, antisymmetric and transitive over three arbitrary values; plus the heap ordering (asc / desc, shard tie-break) of the ordered merger through a cfg(kani) hook.",
+    "explanation": "Bounded model checking (Kani/CBMC) of the comparison every sorter and k-way merger delegates to (ScalarValue::compare) on each numeric / time / bool sort-key type: equals the typed order, antisymmetric and transitive over three arbitrary values; plus the heap ordering (asc / desc, shard tie-break) of the ordered merger through a cfg(kani) hook. Engine B B-3: ghost counters over MergerState::run show the n-th emitted row is the (offset+n)-th popped row and nothing is emitted beyond the limit (<= 3 loop iterations).",
     "outside": [
         "the ordered mergers themselves (async, over channels) and top-k zone pre-selection (RLTE, I/O); the window kernel try_accept_row and the OFFSET-without-LIMIT gate are decided by Engine B",
         "string sort keys in general (str::parse of symbolic text does not finish); only the concrete witness of F-C10-a",
@@ -109,12 +109,12 @@ PROPS["C19"] = {
 PROPS["C01"] = {
     "mir": "c01",
     "level": "other",
-    "explanation": "Symbolic path-condition checking over the real MIR of the write path (insert_and_maybe_flush, the flush task of FlushWorker::run, WalCleaner::cleanup_up_to, SegmentIndex::save/load, InnerWalWriter::append_immediate): the ordering and guard facts the property's mechanisms rest on - WAL append before memtable insert, WAL pruning only after write+verify+publish with cut-off segment_id+1, index replaced by temp/fsync/rename, flush-each-write honoured - each decided by z3 over every branch outcome of the opaque calls.",
+    "explanation": "Symbolic path-condition checking over the real MIR of the write path (insert_and_maybe_flush, the flush task of FlushWorker::run, WalCleaner::cleanup_up_to, SegmentIndex::save/load, InnerWalWriter::append_immediate): the ordering and guard facts the property's mechanisms rest on - WAL append before memtable insert, WAL pruning only after write+verify+publish, index replaced by temp/fsync/rename, flush-each-write honoured - each decided by z3 over every branch outcome of the opaque calls. On top of these per-function facts, B-3 is a bounded model check of the composed write path of one shard (STORE / FLUSH / graceful restart, then kill; <= 6 steps quick, 8 thorough; capacity 1..3): the cut-off rule, the rotation rules and the cleaner's comparison are read from the MIR by solver queries, z3 searches for a history that leaves an acknowledged event without a surviving copy or with two, and the history it returns is run on the real engine (native replay program, real parser / shard / WAL thread / flush worker, kill = _exit) before anything is reported.",
     "trusted_base": MIR_TRUSTED,
     "outside": [
-        "the quantifier itself: crash points x histories x configurations are not explored; only the sequential ordering facts are decided",
-        "that WAL log numbering and segment numbering stay in step (manual FLUSH, empty flushes advance one counter and not the other; the cleaner compares them): a relation between two counters across histories, not a per-function path fact",
-        "WAL recovery, schema reload, compaction hand-over durability, graceful shutdown",
+        "crash points inside a step (only kills between commands are modelled), configurations beyond capacity 1..3 / one shard, histories longer than the bound",
+        "flushes that overlap later commands (the model completes each flush before the next command), a WAL thread that lags behind the acknowledgements (STORE is acknowledged when the entry is queued), failed flushes",
+        "compaction in the history (L0 ids restart after compaction emptied L0), schema reload, hand-over durability",
     ],
 }
 
@@ -132,29 +132,29 @@ PROPS["C03"] = {
 PROPS["C05"] = {
     "mir": "c05",
     "level": "other",
-    "explanation": "Symbolic path-condition checking over the real MIR of CompactionHandover::commit_batch: the index is changed only if every output directory exists, only under the shard flush lock, the live list is updated only after a successful index save, inputs are retired before outputs are inserted, and only drained labels are retired from the live list and caches - each decided by z3 within the loop unrolling bound.",
+    "explanation": "Symbolic path-condition checking over the real MIR of CompactionHandover::commit_batch: the index is changed only if every output directory exists, only under the shard flush lock, the live list is updated only after a successful index save, inputs are retired before outputs are inserted, and only drained labels are retired from the live list and caches - each decided by z3 within the loop unrolling bound. B-4: SegmentIndex::retire_uid_from_labels / remove_labels compute, for every u32 id, the same (level, offset) key SegmentIndexTree::insert files the entry under (callee summaries inlined by substitution; machine arithmetic decided through a mod-2^32 integer encoding; counterexamples replayed on the real SegmentIndex). B-5: every MergePlan of KWayCountPolicy::plan carries its own fresh RangeAllocator::next_for_level(level_to) result.",
     "trusted_base": MIR_TRUSTED,
     "outside": [
         "equality of query answers before and after compaction (needs the k-way merge, HashMap-bound)",
-        "policy / batch planning, multi-level cascades, crash points between output write, index swap and reclaim",
-        "SegmentIndex::retire_uid_from_labels' own semantics (BTreeMap code; callee opaque here)",
+        "chunking policy (which segments are merged), multi-level cascades, crash points between output write, index swap and reclaim",
+        "BTreeMap operations of the index tree themselves (opaque); only the keys they are called with are decided",
     ],
 }
 
 PROPS["C11"] = {
     "mir": "c11",
     "level": "other",
-    "explanation": "Symbolic path-condition checking over the real MIR: a flushed segment enters the live list only after flush Ok + verification, segments.idx is replaced by temp/fsync/rename with a stale temp removed on load, compaction swaps index entries only for existing output directories and updates the live list only after the save - each decided by z3.",
+    "explanation": "Symbolic path-condition checking over the real MIR: a flushed segment enters the live list only after flush Ok + verification, segments.idx is replaced by temp/fsync/rename with a stale temp removed on load, compaction swaps index entries only for existing output directories and updates the live list only after the save - each decided by z3. B-4: one step of RangeAllocator::next_for_level from an arbitrary allocator state (stored offset < LEVEL_SPAN-1, any level below saturation): the id lies in the level's range and the next id of the level is strictly larger (saturating arithmetic modelled exactly, integer encoding); B-4r: the range is left at offset LEVEL_SPAN (known finding F-C11-a, replayed on the real allocator); B-5: merge plans get fresh ids.",
     "trusted_base": MIR_TRUSTED,
     "outside": [
-        "byte-immutability of segment files over a lifetime, id reuse after restart (SegmentIdLoader / RangeAllocator over HashMap and I/O), crash points",
+        "byte-immutability of segment files over a lifetime, id reuse after restart / compaction (allocator seeded from directory names), crash points",
     ],
 }
 
 PROPS["C13"] = {
     "mir": "c13",
     "level": "other",
-    "explanation": "Symbolic checking over the real MIR (z3): (1) path summaries of the loop-free PermissionCache::can_read / can_write against the statement's rule (admin, explicit grant, role unless overridden, REVOKE denies), both directions; (2) in every handler that checks a permission (STORE, QUERY, DEFINE, permission and user management) the data / management effect is unreachable unless auth is off, or a user id is present and it is the bypass id or the permission call returned true; (3) data flow of dispatch_command: which handlers receive the identity at all.",
+    "explanation": "Symbolic checking over the real MIR (z3): (1) path summaries of the loop-free PermissionCache::can_read / can_write against the statement's rule (admin, explicit grant, role unless overridden, REVOKE denies), both directions; (2) in every handler that checks a permission (STORE, QUERY, DEFINE, permission and user management) the data / management effect is unreachable unless auth is off, or a user id is present and it is the bypass id or the permission call returned true; (3) data flow of dispatch_command: which handlers receive the identity at all. B-4k: revoke_key persists and caches an inactive record, the cache only after the store write succeeded.",
     "trusted_base": MIR_TRUSTED + ["the promoted constant compared with the user id in the handlers is BYPASS_USER_ID (promoted bodies are not decoded)"],
     "outside": [
         "HMAC verification, session expiry, rate limiting, the per-connection gates of the four front ends, BATCH",
@@ -180,7 +180,7 @@ PROPS["C07"] = {
     "kani": "c07",
     "mir": "c07",
     "level": "model_checking",
-    "explanation": "Bounded model checking (Kani/CBMC) of the value path both tiers share: JSON number / bool / null -> ScalarValue -> JSON is the identity over the full i64 / u64<=i64::MAX / f64 ranges, and the segment tier's cell-to-value mapping (EventBuilder::add_field_i64/u64/f64/bool/null and the string-cell mapping) yields exactly the value the memory tier holds, including strings that look like numbers, booleans or null; plus a MIR data-flow obligation that the segment reader passes string cells to the text-preserving entry point.",
+    "explanation": "Bounded model checking (Kani/CBMC) of the value path both tiers share: JSON number / bool / null -> ScalarValue -> JSON is the identity over the full i64 / u64<=i64::MAX / f64 ranges, and the segment tier's cell-to-value mapping (EventBuilder::add_field_i64/u64/f64/bool/null and the string-cell mapping) yields exactly the value the memory tier holds, including strings that look like numbers, booleans or null; plus a MIR data-flow obligation that the segment reader passes string cells to the text-preserving entry point. Engine B B-2: the flush writer's field-type to physical-column-type mapping (ColumnWriter::write_all) equals the readers' field_type_to_physical_type for every declared type and its nullable form; a counterexample is replayed end to end on the real engine (QUERY before and after FLUSH).",
     "trusted_base": MIR_TRUSTED,
     "outside": [
         "strings longer than 3 bytes / non-ASCII, u64 above i64::MAX (decimal-string representation; serde_json::from_str does not finish under Kani)",
@@ -192,7 +192,7 @@ PROPS["C07"] = {
 PROPS["C06"] = {
     "mir": "c06",
     "level": "other",
-    "explanation": "Symbolic checking over the real MIR (z3): per-field-type summary of type_allows_value (the verdict is exactly the JSON accessor of the declared type, optional = null or inner verdict, enum = declared variant), validate_payload returns Ok only if every present field passed, absent fields are optional-only by construction of the loop, and no extra key is present; store::handle reaches the shard only for a defined type, non-empty type and context id, Ok validation and Ok time normalisation; a failed or repeated DEFINE leaves the registry unchanged.",
+    "explanation": "Symbolic checking over the real MIR (z3): per-field-type summary of type_allows_value (the verdict is exactly the JSON accessor of the declared type, optional = null or inner verdict, enum = declared variant), validate_payload returns Ok only if every present field passed, absent fields are optional-only by construction of the loop, and no extra key is present; store::handle reaches the shard only for a defined type, non-empty type and context id, Ok validation and Ok time normalisation; a failed or repeated DEFINE leaves the registry unchanged. B-5: PayloadTimeNormalizer::normalize hands every present non-null datetime / date value (nullable or not) to TimeParser::normalize_json_value with the matching kind and propagates its error.",
     "trusted_base": MIR_TRUSTED + ["serde_json::Value accessors (is_string, as_i64, as_u64, as_f64, is_boolean, is_number, is_null, as_str, as_object) behave as documented"],
     "outside": [
         "the 'if' direction (every conforming payload is accepted) and acceptance of concrete JSON shapes inside serde_json's accessors (e.g. as_f64 accepts integers)",
@@ -210,7 +210,7 @@ PROPS["C02"]["trusted_base"] = MIR_TRUSTED
 PROPS["C12"] = {
     "mir": "c12",
     "level": "other",
-    "explanation": "Symbolic data-flow / path checking over the real MIR (z3): ShardManager::get_shard computes `DefaultHasher(context_id).finish() % shards.len()` from the context id alone with a fixed-key hasher; STORE routes by the command's context id and the event carries the same id; the shard context tags its event ids with its own id (C18 A-1 shows the tag equals that id & 0x3FF); the streaming dispatcher sends the query to every element of all_shards() and records each receiver before moving on.",
+    "explanation": "Symbolic data-flow / path checking over the real MIR (z3): ShardManager::get_shard computes `DefaultHasher(context_id).finish() % shards.len()` from the context id alone with a fixed-key hasher; STORE routes by the command's context id and the event carries the same id; the shard context tags its event ids with its own id (C18 A-1 shows the tag equals that id & 0x3FF); the streaming dispatcher sends the query to every element of all_shards() and records each receiver before moving on. B-4b: the dispatcher's collection loop moves on / returns Ok only after Ok(Ok(handle)) of the awaited receiver was kept.",
     "trusted_base": MIR_TRUSTED + ["std::hash::DefaultHasher::new() uses fixed keys, i.e. equal inputs hash equally in every process built from the same toolchain"],
     "outside": [
         "the hash function itself (SipHash over the string bytes) and its stability across toolchain versions",
